@@ -22,6 +22,7 @@ import (
 	_ "github.com/bufbuild/verifharness/internal/depsmodel"
 	_ "github.com/bufbuild/verifharness/internal/digestmodel"
 	_ "github.com/bufbuild/verifharness/internal/faults"
+	_ "github.com/bufbuild/verifharness/internal/formatmodel"
 	_ "github.com/bufbuild/verifharness/internal/filtermodel"
 	_ "github.com/bufbuild/verifharness/internal/imagemodel"
 	_ "github.com/bufbuild/verifharness/internal/lintmodel"
